@@ -18,11 +18,8 @@ import (
 
 const (
 	// default anchors for regex expressions embedded in command match attributes
-	// stored as bytes and strs for matching and concatenation
-	regexStartByte = '^'
-	regexEndByte   = '$'
-	regexStartStr  = "^"
-	regexEndStr    = "$"
+	regexStartStr = "^"
+	regexEndStr   = "$"
 )
 
 // NewCommandBasedAuthorizer will return a CommandBasedAuthorizer authorizer. If initial request params
@@ -107,13 +104,11 @@ func (a CommandBasedAuthorizer) evaluate() bool {
 			if len(regexish) == 0 {
 				continue
 			}
-			// guard against regexes that are not anchored to the start and end of the string
-			if regexish[0] != regexStartByte {
-				regexish = regexStartStr + regexish
-			}
-			if regexish[len(regexish)-1] != regexEndByte {
-				regexish = regexish + regexEndStr
-			}
+			// the pattern has to match the whole argument string.  It is wrapped in a group before
+			// the anchors are added: looking only at its first and last byte leaves an alternation
+			// such as "terminal|exclusive" anchored on one side of each branch only, so that
+			// "terminal ; reload" would match it
+			regexish = regexStartStr + "(?:" + regexish + ")" + regexEndStr
 			if matched, err := regexp.MatchString(regexish, a.body.Args.CommandArgsNoLE()); err != nil {
 				a.Errorf(a.ctx, "bad regex detected; %v", err)
 				return false
